@@ -29,7 +29,10 @@ def tmpfile():
 def saveload(case):
     idx, scores = case
     line = {"kind": "saveload", "saved": [], "loaded": [], "loadedRel": [], "raised": "", "target": 0, "case": {"scores": scores}}
-    path = tmpfile()
+    # history of a path: every third case writes to the path the previous such case of this process wrote to (a piece saved
+    # again under the same name after it was changed); what is loaded must be what was saved last
+    reuse = idx % 3 == 1
+    path = os.path.join(TMPDIR or tempfile.gettempdir(), f"reused-{os.getpid()}.mid") if reuse else tmpfile()
     try:
         seqs = [build(sc, via4(idx + i)) for i, sc in enumerate(scores)]
         if idx % 7 == 6:
@@ -55,7 +58,8 @@ def saveload(case):
     except Exception as e:
         line["raised"] = f"{type(e).__name__}: {e}"
     finally:
-        os.unlink(path)
+        if not reuse:
+            os.unlink(path)
     return line
 
 
